@@ -848,3 +848,78 @@ func TestSiblingTables(t *testing.T) {
 		c.Class("sibling-tables: " + kind)
 	})
 }
+
+// TestSiblingIntervals: under a process-wide configuration whose default metric spans 2000 ms, two pacing rules of one
+// resource differ only in their statistic interval: 0 (a pacing rule with interval 0 is paced over one second) and 2000
+// (paced over two). After a reload that removes the first or swaps the two, the remaining rules are unchanged and keep
+// their pacing state and their own spacing: a second request at the same instant is asked to wait exactly the spacings of
+// the rules still listed.
+func TestSiblingIntervals(t *testing.T) {
+	hx.Check(t, hx.N{Quick: 1500, Thorough: 15000}, func(t *rapid.T, c *hx.Case) {
+		sc := rapid.SampledFrom([]hx.StatCfg{{2, 2000, 20, 10000}, {4, 2000, 20, 10000}, {2, 1000, 20, 10000}, {5, 5000, 10, 10000}}).Draw(t, "statConfig")
+		hx.ResetCfg(hx.Epoch+uint64(rapid.IntRange(0, 999).Draw(t, "t0")), sc, nil)
+		T := float64(rapid.SampledFrom([]int{5, 10, 20}).Draw(t, "T"))
+		mk := func(id string, iv uint32) *flow.Rule {
+			return &flow.Rule{ID: id, Resource: "a", ControlBehavior: flow.Throttling, Threshold: T, StatIntervalInMs: iv, MaxQueueingTimeMs: 3600000}
+		}
+		need := func(iv uint32) int64 { // spacing in ns: one token over the rule's interval (0 = one second)
+			if iv == 0 {
+				iv = 1000
+			}
+			return int64(float64(iv) * 1e6 / T)
+		}
+		other := sc.MI
+		if other == 1000 {
+			other = 2000
+		}
+		first := []*flow.Rule{mk("zero", 0), mk("other", other)}
+		if rapid.Bool().Draw(t, "otherFirst") {
+			first[0], first[1] = first[1], first[0]
+		}
+		if _, err := flow.LoadRules(first); err != nil || len(flow.GetRulesOfResource("a")) != 2 {
+			t.Fatalf("load: %v", err)
+		}
+		ask := func() (bool, int64) {
+			hx.C.TakeSlept()
+			e, blk := sentinel.Entry("a")
+			var w int64
+			for _, d := range hx.C.TakeSlept() {
+				w += int64(d)
+			}
+			if e != nil {
+				e.Exit()
+			}
+			return blk == nil, w
+		}
+		if ok, w := ask(); !ok || w != 0 {
+			t.Fatalf("first request on an idle resource: admitted=%v wait=%d", ok, w)
+		}
+		kind := rapid.SampledFrom([]string{"zero removed", "other removed", "swapped"}).Draw(t, "reload")
+		var next []*flow.Rule
+		var want int64
+		switch kind {
+		case "zero removed":
+			next, want = []*flow.Rule{mk("other", other)}, need(other)
+		case "other removed":
+			next, want = []*flow.Rule{mk("zero", 0)}, need(0)
+		default:
+			next, want = []*flow.Rule{copyFlow(first[1]), copyFlow(first[0])}, need(0)+need(other)
+		}
+		var err error
+		if rapid.Bool().Draw(t, "perResource") {
+			_, err = flow.LoadRulesOfResource("a", next)
+		} else {
+			_, err = flow.LoadRules(next)
+		}
+		if err != nil || len(flow.GetRulesOfResource("a")) != len(next) {
+			t.Fatalf("reload: %v", err)
+		}
+		ok, w := ask()
+		c.Op("config %+v T=%v other interval=%d reload: %s -> admitted=%v wait=%dns (want %dns)", sc, T, other, kind, ok, w, want)
+		if !ok || w != want {
+			t.Fatalf("config %+v: pacing rules with statistic intervals 0 and %d (threshold %v); after the reload (%s) a second request at the same instant: admitted=%v, asked to wait %dns; the rules still listed are unchanged and charge exactly %dns", sc, other, T, kind, ok, w, want)
+		}
+		c.NonTrivial()
+		c.Class("sibling-intervals: " + kind)
+	})
+}
